@@ -763,8 +763,9 @@ class Interp:
             now = {id(c): v for c, v in snap}
             for x in ext:
                 x['back'].append((g[len(g0):], now.get(id(x['cell']))))
+        exit_guards = [(sk, g[len(g0):]) for sk, lst in r.items() if sk != header for g, _s in lst]
         self.loops.append({'body': st.body, 'header': header, 'blocks': L, 'init': pre_vals, 'phi': phi_vals, 'back': back,
-                           'depth': len(self.stack), 'ext': ext})
+                           'depth': len(self.stack), 'ext': ext, 'exits': exit_guards})
         out = {}
         exit_states = []
         for sk, lst in r.items():
